@@ -277,7 +277,7 @@ def gen_take(rng, g, lo, hi, f):
     d = fdelta(g['freq']) if not g['freq'].endswith('d') else pd.Timedelta(days=int(to_offset(g['freq']).n))
     tz = g.get('tz')
     for _ in range(20):
-        i = int(rng.integers(-3, T - 1)); n = int(rng.integers(2, T + 4))
+        i = int(rng.integers(-3, T)); n = int(rng.integers(2, T + 4))          # (also a period that begins with the very last step)
         s = pd.Timestamp(g['start']) + d * i
         e = s + d * n
         if not (local_ok(str(s), tz) and local_ok(str(e), tz)):
@@ -683,8 +683,10 @@ def gen_mixed_portfolio(rng, kinds=ALL_KINDS, g=None, n_assets=(2, 6), n_nodes=(
                 s_, e_, _k = gen_window(rng, g, kinds=['inside', 'inside', 'straddle_start', 'straddle_end', 'start_only', 'end_only'])
                 assets[-1]['start'] = s_; assets[-1]['end'] = e_
         elif ty == 'scaled':
-            base = pick(rng, ['storage', 'contract', 'transport'])
-            if base == 'storage':
+            base = pick(rng, ['storage', 'contract', 'transport', 'storage', 'contract', 'transport', 'orderbook'])
+            if base == 'orderbook':
+                b = gen_orderbook(rng, g, 'sc_base%d' % j, pick(rng, nodes), n_orders=int(rng.integers(1, 6)), full_exec=False)
+            elif base == 'storage':
                 b = gen_storage(rng, g, 'sc_base%d' % j, [pick(rng, nodes)], f, window=False)
             elif base == 'transport' and nn > 1:
                 n1, n2 = [nodes[int(i)] for i in rng.permutation(nn)[:2]]
@@ -692,7 +694,7 @@ def gen_mixed_portfolio(rng, kinds=ALL_KINDS, g=None, n_assets=(2, 6), n_nodes=(
             else:
                 b = gen_contract(rng, g, 'sc_base%d' % j, pick(rng, nodes), f, key, window=False, dict_caps=False)
             s, e, kk = gen_window(rng, g, kinds=['none', 'none', 'inside', 'straddle_end'])
-            if rng.random() < 0.4:
+            if rng.random() < 0.4 and base != 'orderbook':
                 b['start'], b['end'], _kb = gen_window(rng, g, kinds=['inside', 'straddle_start', 'straddle_end', 'start_only', 'end_only'])      # the base's own lifetime
             assets.append({'type': 'ScaledAsset', 'name': 'sc%d' % j, 'base': b, 'min_scale': pick(rng, [0., 0.5]), 'max_scale': pick(rng, [1., 3.]),
                            'norm_scale': pick(rng, [1., 2.]), 'fix_costs': r2(pick(rng, [0., 0.1, 1.]) * f), 'start': s, 'end': e, 'wacc': 0.})
